@@ -37,6 +37,7 @@ class Env:
         self.track_identity = False
         self.funcs: dict[str, Any] = {}
         self.late_renames = False
+        self.exercise_intermediates = True
 
     def err(self, tag: str) -> UserErr:
         if tag not in self.errs:
@@ -191,6 +192,20 @@ def _tuple_or_none(names: list[str]) -> Any:
     return tuple(names)
 
 
+def _exercise(n: Any, env: Env) -> None:
+    """Use an intermediate node object the way user code may before deriving from it (read-only public API)."""
+    if not env.exercise_intermediates:
+        return
+    try:
+        _ = (n.inputs, n.outputs, n.definition_hash)
+        n.map_inputs_to_params({})
+        for p in n.inputs:
+            n.has_default_for(p)
+        _ = Graph([n], name="warmup").inputs
+    except Exception:  # noqa: BLE001 - only a warm-up
+        pass
+
+
 def build_node(spec: dict, gi: int, graphs: list[Any], env: Env, *, async_bodies: bool) -> Any:
     kind = spec["kind"]
     fnid = f"{gi}:{spec['name']}"
@@ -260,13 +275,18 @@ def build_node(spec: dict, gi: int, graphs: list[Any], env: Env, *, async_bodies
             wait_for=wait_for,
         )(func)
     if kind == "graph":
+        # every intermediate object of the derivation chain is USED (placed in a graph, queried) before the next derivation, as user code
+        # that keeps and reuses intermediate wrappers does; derived objects must not inherit anything stale from that use
         gn = graphs[spec["inner"]].as_node(name=spec["name"])
         if in_ren:
+            _exercise(gn, env)
             gn = gn.with_inputs(in_ren)
         out_ren = dict(spec.get("outRen", []))
         if out_ren:
+            _exercise(gn, env)
             gn = gn.with_outputs(out_ren)
         if spec.get("mapOver"):
+            _exercise(gn, env)
             gn = gn.map_over(*spec["mapOver"], mode=spec.get("mapMode", "zip"), error_handling=spec.get("errMode", "raise"))
         return gn
     raise ValueError(f"unknown kind {kind}")
@@ -280,14 +300,47 @@ def build_graph(gspec: dict, gi: int, graphs: list[Any], env: Env, *, async_bodi
     if gspec.get("strict"):
         kwargs["strict_types"] = True
     g = Graph(nodes, name=gspec.get("name") or f"g{gi}", **kwargs)
+    # as for nodes: each intermediate graph of the derivation chain is used (queried, run) before the next derivation
     bound = {k: py_val(v) for k, v in gspec.get("bound", [])}
     if bound:
+        _exercise_graph(g, env, async_bodies)
         g = g.bind(**bound)
     if gspec.get("selected") is not None:
+        _exercise_graph(g, env, async_bodies)
         g = g.select(*gspec["selected"])
     if gspec.get("entrypoints") is not None:
+        _exercise_graph(g, env, async_bodies)
         g = g.with_entrypoint(*gspec["entrypoints"])
     return g
+
+
+def _exercise_graph(g: Any, env: Env, async_bodies: bool) -> None:
+    """Query and run an intermediate graph object (instrumentation muted) before something is derived from it."""
+    if not env.exercise_intermediates:
+        return
+    import asyncio
+    import warnings
+
+    from hypergraph import AsyncRunner, SyncRunner
+
+    saved = (env.log, env.park, env.inflight, env.max_inflight, env.received)
+    env.log, env.park, env.received = [], None, []
+    try:
+        _ = (g.inputs, g.definition_hash)
+        vals = {k: 0 for k in g.inputs.required}
+        with warnings.catch_warnings():
+            warnings.simplefilter("ignore")
+            if async_bodies:
+                try:
+                    asyncio.get_running_loop()
+                except RuntimeError:
+                    asyncio.run(AsyncRunner().run(g, vals, error_handling="continue", max_iterations=4))
+            else:
+                SyncRunner().run(g, vals, error_handling="continue", max_iterations=4)
+    except Exception:  # noqa: BLE001 - only a warm-up
+        pass
+    finally:
+        env.log, env.park, env.inflight, env.max_inflight, env.received = saved
 
 
 def build_program(program: list[dict], env: Env, *, async_bodies: bool = False) -> list[Any]:
